@@ -230,7 +230,21 @@ impl Prop for C17 {
     }
 
     fn judge(&self, sc: &Scenario, mut st: Option<&mut Stats>) -> Option<Violation> {
-        let build = Build::Std;
+        // The class of the extra line is always decided by the std build. The no-alloc build is
+        // judged too: a line std rejects for form, checksum or sequencing, or an unfragmented
+        // sentence, must leave no trace there either (it rejects the same lines for the same
+        // reasons, or - over-long payload - without touching its state).
+        let v = judge_on(sc, Build::Std, &mut st);
+        if v.is_some() {
+            return v;
+        }
+        judge_on(sc, Build::None, &mut None)
+    }
+}
+
+fn judge_on(sc: &Scenario, build: Build, st: &mut Option<&mut Stats>) -> Option<Violation> {
+    {
+        let class_build = Build::Std;
         let extra_at = sc.ops.iter().position(|o| matches!(o, Op::Line(l) if l.role == Role::Extra));
         if let Some(p) = extra_at {
             let x = match &sc.ops[p] {
@@ -242,7 +256,7 @@ impl Prop for C17 {
             let mut kx = x.clone();
             kx.decode = false;
             kops.push(Op::Line(kx));
-            let (kout, _) = exec(build, sc.nodes, &kops, |_, _| true);
+            let (kout, _) = exec(class_build, sc.nodes, &kops, |_, _| true);
             let k_outcome = kout.last().map(|(_, o)| o.clone());
             let class: &'static str = match &k_outcome {
                 Some(Outcome::ErrNmea(_)) => "rejected(form-or-sequencing)",
@@ -303,7 +317,7 @@ impl Prop for C17 {
                         prop: "C17".into(),
                         clause: "removing-the-line-changes-another-result".into(),
                         at: ao.0,
-                        build: "std".into(),
+                        build: build.name().into(),
                         detail: format!(
                             "extra line {:?} (class {}) at position {}: operation {} answers {} with it and {} without it",
                             crate::json::show(&x.bytes),
@@ -354,7 +368,7 @@ impl Prop for C17 {
                             prop: "C17".into(),
                             clause: "removing-the-line-changes-another-result".into(),
                             at: sc.ops.len() - 1,
-                            build: "std".into(),
+                            build: build.name().into(),
                             detail: format!(
                                 "extra line {:?} (class {}) at position {}: the follow-up line {:?} answers {} with it and {} without it",
                                 crate::json::show(&x.bytes),
@@ -404,7 +418,7 @@ impl Prop for C17 {
                             prop: "C17".into(),
                             clause: "parser-instances-influence-each-other".into(),
                             at: s.0,
-                            build: "std".into(),
+                            build: build.name().into(),
                             detail: format!(
                                 "operation {} on node {} answers {} when the nodes' streams are interleaved and {} when the node runs alone",
                                 s.0,
